@@ -21,6 +21,8 @@ import (
 	"encoding/gob"
 	"fmt"
 	"io"
+	"strings"
+	"time"
 
 	"github.com/itchio/savior"
 	"github.com/itchio/savior/brotlisource"
@@ -517,12 +519,30 @@ func c13Judge(st *c13Stream, evs []c13Ev, r *lib.Rng, fullBudget int64, stats *c
 			k++
 		}
 	}
-	// every popped checkpoint, serialized, handed to a new reader over the same bytes
+	// every popped checkpoint, serialized, handed to a new reader over the same bytes; the
+	// remainder is read to the end while the byte budget of the case lasts, else the next
+	// messages only (at least one)
+	budgetLeft := fullBudget
 	for j, p := range cks {
 		rem := st.bounds[n] - st.bounds[p.k]
+		share := budgetLeft / int64(len(cks)-j)
 		limit := -1
-		if rem > fullBudget && j%5 != 0 && n-p.k > 3 {
-			limit = 3
+		if rem > share {
+			limit = 0
+			for q := p.k; q < n && (limit == 0 || st.bounds[q+1]-st.bounds[p.k] <= share); q++ {
+				limit++
+			}
+			if limit >= n-p.k {
+				limit = -1
+			}
+		}
+		if limit < 0 {
+			budgetLeft -= rem
+		} else {
+			budgetLeft -= st.bounds[p.k+limit] - st.bounds[p.k]
+		}
+		if budgetLeft < 0 {
+			budgetLeft = 0
 		}
 		pre := 0
 		if r.Chance(1, 3) {
@@ -656,13 +676,17 @@ func c13Seqs(c *Ctx, r *lib.Rng) []c13Seq {
 	ladder := append(append(append([]int(nil), c13Small...), c13Mid...), c13Big...)
 	out = append(out, c13Seq{"ladder", ladder, 1})
 	// big then small: the regrown buffer is reused for later, smaller messages
-	out = append(out, c13Seq{"big-then-small", []int{32769, 0, 2, 127, 1 << 20, 128, 0, 4<<20 + 1, 3, 16384, 65537, 2, 32768, 0}, 2})
+	out = append(out, c13Seq{"big-then-small", []int{32769, 0, 2, 127, 1 << 20, 128, 0, 4<<20 + 1, 3, 16384, 65537, 2, 32768, 0}, 1})
 	// growth steps of the reusable buffer, up and down
 	var steps []int
-	for p := 15; p <= 21; p++ {
+	top := 18
+	if c.Thorough() {
+		top = 22
+	}
+	for p := 15; p <= top; p++ {
 		steps = append(steps, 1<<uint(p)-1, 1<<uint(p), 1<<uint(p)+1)
 	}
-	for p := 21; p >= 15; p-- {
+	for p := top; p >= 15; p-- {
 		steps = append(steps, 1<<uint(p)+1, 1<<uint(p))
 	}
 	out = append(out, c13Seq{"growth-steps", steps, 0})
@@ -687,7 +711,10 @@ func c13Seqs(c *Ctx, r *lib.Rng) []c13Seq {
 	for i := 0; i < extra; i++ {
 		var sz []int
 		n := r.Range(1, maxMsgs)
-		budget := 6 << 20
+		budget := 2 << 20
+		if c.Thorough() {
+			budget = 8 << 20
+		}
 		for j := 0; j < n && budget > 0; j++ {
 			var s int
 			switch r.Intn(6) {
@@ -731,6 +758,7 @@ func sizesSummary(sz []int) interface{} {
 }
 
 func runC13(c *Ctx) error {
+	c13Corpus(c)
 	if err := c13Uvarint(c); err != nil {
 		return err
 	}
@@ -745,13 +773,68 @@ func runC13(c *Ctx) error {
 
 // ---------- oracle-only streams: all sizes, all codecs ----------
 
+func c13StreamCase(c *Ctx, cr *lib.Rng, prefix string, sq c13Seq, msgs []*wire.Sample, comp lib.Compression, sched string, fullBudget int64, chain bool) {
+	t0 := time.Now()
+	st, err := c13Build(comp, msgs)
+	input := map[string]interface{}{"seq": sq.name, "sizes": sizesSummary(sq.sizes), "fill": sq.kind, "codec": comp.String(), "sched": sched}
+	class := fmt.Sprintf("%s/%s/%s/%s", prefix, sq.name, comp.String(), sched)
+	if err != nil {
+		c.Out.Emit(&lib.Case{Class: class, Input: input, Oracle: err.Error()})
+		return
+	}
+	input["rawLen"] = len(st.raw)
+	input["sectionLen"] = st.bounds[len(msgs)]
+	stats := &c13Stats{}
+	oracle := ""
+	var rc *wire.ReadContext
+	cls, msg := lib.Guard(func() error {
+		var err error
+		rc, err = c13Open(st.raw)
+		return err
+	})
+	if cls != "ok" {
+		oracle = "opening the stream: " + cls + " " + msg
+	} else {
+		ops := c13Ops(cr, len(msgs), sched)
+		evs := c13Run(rc, ops, 0)
+		oracle = c13Judge(st, evs, cr, fullBudget, stats)
+	}
+	chainGens := 0
+	if oracle == "" && chain {
+		var o string
+		o, chainGens = c13Chain(st, cr, stats)
+		if o != "" {
+			oracle = "crash/resume chain: " + o
+		}
+	}
+	c.Out.Emit(&lib.Case{Class: class, Nontrivial: stats.resumes > 0 && len(msgs) >= 2,
+		Input:  input,
+		Obs:    map[string]interface{}{"pops": stats.pops, "lagged": stats.lagged, "maxLag": stats.maxLag, "resumes": stats.resumes, "chainGenerations": chainGens, "ms": time.Since(t0).Milliseconds()},
+		Oracle: oracle})
+}
+
+// c13Corpus: inputs that failed on the unchanged tree (fixed since, see known_findings.json);
+// they run first on every check.
+//   - a stream ending in an empty message behind gzip lost that message (io.EOF instead)
+//   - a checkpoint popped after the last message behind gzip could not be resumed (io.EOF)
+func c13Corpus(c *Ctx) {
+	r := lib.NewRng(13)
+	for _, q := range []int32{0, 1, 6, 9} {
+		comp := lib.Compression{Algo: pwr.CompressionAlgorithm_GZIP, Quality: q}
+		for _, sizes := range [][]int{{70000, 0}, {0}, {20000, 2, 131073, 0, 65536}, {100, 32767}} {
+			sq := c13Seq{"corpus", sizes, 0}
+			c13StreamCase(c, r.Fork(), "corpus", sq, c13Msgs(r.Fork(), sq), comp, "all", 1<<40, true)
+		}
+	}
+}
+
 func c13Streams(c *Ctx) error {
 	r := c.Rng.Fork()
 	codecs := c13Codecs(c.Thorough())
 	seqs := c13Seqs(c, r)
-	fullBudget := int64(3 << 20)
+	fullBudget := int64(6 << 20)
 	if c.Thorough() {
-		fullBudget = 12 << 20
+		fullBudget = 64 << 20
 	}
 	for si, sq := range seqs {
 		mr := r.Fork()
@@ -762,46 +845,15 @@ func c13Streams(c *Ctx) error {
 			if ci >= len(lib.Compressions) && (si+ci)%3 != 0 {
 				continue
 			}
-			st, err := c13Build(comp, msgs)
 			sched := c13Scheds[(si+ci+int(c.Seed))%len(c13Scheds)]
 			if si < 6 && ci < len(lib.Compressions) {
 				sched = "all" // the fixed sequences: a save requested at every boundary, for every codec
 			}
-			input := map[string]interface{}{"seq": sq.name, "sizes": sizesSummary(sq.sizes), "fill": sq.kind, "codec": comp.String(), "sched": sched}
-			class := fmt.Sprintf("stream/%s/%s/%s", sq.name, comp.String(), sched)
-			if err != nil {
-				c.Out.Emit(&lib.Case{Class: class, Input: input, Oracle: err.Error()})
-				continue
+			b := fullBudget
+			if comp.Algo == pwr.CompressionAlgorithm_BROTLI {
+				b /= 2 // the pure Go brotli decoder is slow
 			}
-			input["rawLen"] = len(st.raw)
-			input["sectionLen"] = st.bounds[len(msgs)]
-			stats := &c13Stats{}
-			oracle := ""
-			var rc *wire.ReadContext
-			cls, msg := lib.Guard(func() error {
-				var err error
-				rc, err = c13Open(st.raw)
-				return err
-			})
-			if cls != "ok" {
-				oracle = "opening the stream: " + cls + " " + msg
-			} else {
-				ops := c13Ops(cr, len(msgs), sched)
-				evs := c13Run(rc, ops, 0)
-				oracle = c13Judge(st, evs, cr, fullBudget, stats)
-			}
-			chainGens := 0
-			if oracle == "" && (sched == "all" || cr.Chance(1, 3)) {
-				var o string
-				o, chainGens = c13Chain(st, cr, stats)
-				if o != "" {
-					oracle = "crash/resume chain: " + o
-				}
-			}
-			c.Out.Emit(&lib.Case{Class: class, Nontrivial: stats.resumes > 0 && len(msgs) >= 2,
-				Input:  input,
-				Obs:    map[string]interface{}{"pops": stats.pops, "lagged": stats.lagged, "maxLag": stats.maxLag, "resumes": stats.resumes, "chainGenerations": chainGens},
-				Oracle: oracle})
+			c13StreamCase(c, cr, "stream", sq, msgs, comp, sched, b, sched == "all" || cr.Chance(1, 3))
 		}
 	}
 	return nil
@@ -809,10 +861,21 @@ func c13Streams(c *Ctx) error {
 
 // ---------- group "ckpt": reader state machine against the model ----------
 
+// run-length encoded bytes as a Coq term; pairs go through the typed constructor f2 (tuples
+// of literals elaborate much more slowly)
+func coqRle(b []byte) string {
+	r := lib.ToRle(b)
+	s := make([]string, len(r))
+	for i, x := range r {
+		s[i] = fmt.Sprintf("f2 %d %d", x.V, x.C)
+	}
+	return "[" + strings.Join(s, ";") + "]"
+}
+
 func coqRleBodies(bodies [][]byte) string {
 	s := make([]string, len(bodies))
 	for i, b := range bodies {
-		s[i] = lib.ToRle(b).Coq()
+		s[i] = coqRle(b)
 	}
 	return lib.CoqList(s)
 }
@@ -842,6 +905,9 @@ func c13Ckpt(c *Ctx) error {
 		shape := cr.Intn(4)
 		if comp.Algo != pwr.CompressionAlgorithm_NONE && cr.Chance(2, 3) {
 			shape = 4
+			if nm > 8 {
+				nm = 8
+			}
 		}
 		for j := 0; j < nm; j++ {
 			switch shape {
@@ -854,7 +920,7 @@ func c13Ckpt(c *Ctx) error {
 			case 3:
 				sizes = append(sizes, cr.Range(0, 600))
 			default:
-				sizes = append(sizes, []int{70000, 131073, 20000, 0, 2, 65536, 100000}[cr.Intn(7)])
+				sizes = append(sizes, []int{70000, 131073, 20000, 0, 2, 65536, 100000, 3000}[cr.Intn(8)])
 			}
 		}
 		kind := 0 // RLE friendly bodies keep the case file small
@@ -895,14 +961,14 @@ func c13Ckpt(c *Ctx) error {
 			}
 			prevSave, prevOff = ev.save, ev.off
 		}
-		// resumptions compared with the model: up to 5 popped checkpoints
+		// resumptions compared with the model: up to 3 popped checkpoints
 		var popIdx []int
 		for j, ev := range evs {
 			if ev.op == 'P' && ev.ck != nil {
 				popIdx = append(popIdx, j)
 			}
 		}
-		for len(popIdx) > 5 {
+		for len(popIdx) > 3 {
 			d := cr.Intn(len(popIdx))
 			popIdx = append(popIdx[:d], popIdx[d+1:]...)
 		}
@@ -936,13 +1002,13 @@ func c13Ckpt(c *Ctx) error {
 			for _, m := range got {
 				b, _ := c13Body(m)
 				l, s := fpOf(b)
-				fps = append(fps, fmt.Sprintf("(%d,%d)", l, s))
+				fps = append(fps, fmt.Sprintf("f2 %d %d", l, s))
 			}
 			endN, ok := c13ClassN[end]
 			if !ok {
 				endN = 5
 			}
-			resumes = append(resumes, fmt.Sprintf("(%d, %s, %d)", j, lib.CoqList(fps), endN))
+			resumes = append(resumes, fmt.Sprintf("rs %d %s %d", j, lib.CoqList(fps), endN))
 			resObs = append(resObs, map[string]interface{}{"afterMessages": ev.k, "read": len(got), "end": end, "restart": restart})
 		}
 		for ti := range table {
@@ -954,28 +1020,28 @@ func c13Ckpt(c *Ctx) error {
 		if comp.Algo != pwr.CompressionAlgorithm_NONE {
 			var rows []string
 			for _, e := range table {
-				rows = append(rows, fmt.Sprintf("(%d,%d,%d,%d)", e.before, e.after, e.scOff, e.restart))
+				rows = append(rows, fmt.Sprintf("row %d %d %d %d", e.before, e.after, e.scOff, e.restart))
 			}
 			beh = "(Some " + lib.CoqList(rows) + ")"
 		}
 		var opsS, evS []string
 		evObs := []interface{}{}
 		for _, ev := range evs {
-			snap := fmt.Sprintf("(%d,%d,%d)", ev.off, ev.cap, ev.save)
+			snap := fmt.Sprintf("%d %d %d", ev.off, ev.cap, ev.save)
 			switch ev.op {
 			case 'W':
 				opsS = append(opsS, "OWant")
-				evS = append(evS, "(EWant, "+snap+")")
+				evS = append(evS, "ob EWant "+snap)
 			case 'P':
 				opsS = append(opsS, "OPop")
 				if ev.ck == nil {
-					evS = append(evS, "(EPop None, "+snap+")")
+					evS = append(evS, "ob (EPop None) "+snap)
 				} else {
-					sc := "None"
 					if ev.ck.SourceCheckpoint != nil {
-						sc = fmt.Sprintf("(Some %d)", ev.ck.SourceCheckpoint.Offset)
+						evS = append(evS, fmt.Sprintf("ob (pop_some %d %d) %s", ev.ck.Offset, ev.ck.SourceCheckpoint.Offset, snap))
+					} else {
+						evS = append(evS, fmt.Sprintf("ob (pop_nosrc %d) %s", ev.ck.Offset, snap))
 					}
-					evS = append(evS, fmt.Sprintf("(EPop (Some (%d, %s)), %s)", ev.ck.Offset, sc, snap))
 					evObs = append(evObs, map[string]interface{}{"popAfter": ev.k, "offset": ev.ck.Offset, "sourceOffset": ev.ck.SourceCheckpoint.Offset})
 				}
 			case 'R':
@@ -983,9 +1049,9 @@ func c13Ckpt(c *Ctx) error {
 				if ev.msg != nil {
 					b, _ := c13Body(ev.msg)
 					l, s := fpOf(b)
-					evS = append(evS, fmt.Sprintf("(ERead (RMsg (%d,%d)), %s)", l, s, snap))
+					evS = append(evS, fmt.Sprintf("ob (rd_msg %d %d) %s", l, s, snap))
 				} else {
-					evS = append(evS, fmt.Sprintf("(ERead (RErr %d), %s)", c13ClassN[ev.cls], snap))
+					evS = append(evS, fmt.Sprintf("ob (rd_err %d) %s", c13ClassN[ev.cls], snap))
 				}
 			}
 		}
@@ -994,7 +1060,7 @@ func c13Ckpt(c *Ctx) error {
 			Input:      input,
 			Obs:        map[string]interface{}{"pops": evObs, "resumes": resObs, "emissions": len(table), "cap0": cap0},
 			Oracle:     oracle,
-			Coq:        fmt.Sprintf("($ID%%N, %d, %s, %s, %s, %s, %s)", cap0, coqRleBodies(st.bodies), lib.CoqList(opsS), beh, lib.CoqList(evS), lib.CoqList(resumes))})
+			Coq:        fmt.Sprintf("mk_ckpt $ID%%N %d %s %s %s %s %s", cap0, coqRleBodies(st.bodies), lib.CoqList(opsS), beh, lib.CoqList(evS), lib.CoqList(resumes))})
 	}
 	return nil
 }
@@ -1136,7 +1202,7 @@ func c13Frames(c *Ctx) error {
 			if p < len(stream) {
 				nTrunc++
 			}
-			cutS = append(cutS, fmt.Sprintf("(%d,%d,%d)", p, len(got), c13ClassN[end]))
+			cutS = append(cutS, fmt.Sprintf("cut %d %d %d", p, len(got), c13ClassN[end]))
 		}
 		mg := "None"
 		if withMagic {
@@ -1147,7 +1213,7 @@ func c13Frames(c *Ctx) error {
 			Input:      map[string]interface{}{"magic": magic, "expect": expect, "withMagic": withMagic, "sizes": sizes},
 			Obs:        map[string]interface{}{"streamLen": len(stream), "cuts": len(cuts)},
 			Oracle:     oracle,
-			Coq:        fmt.Sprintf("($ID%%N, %s, %s, %s, %s)", mg, coqRleBodies(bodies), lib.ToRle(stream).Coq(), lib.CoqList(cutS))})
+			Coq:        fmt.Sprintf("mk_frame $ID%%N %s %s %s %s", mg, coqRleBodies(bodies), coqRle(stream), lib.CoqList(cutS))})
 	}
 	return nil
 }
@@ -1201,7 +1267,7 @@ func c13Uvarint(c *Ctx) error {
 			Input:  map[string]interface{}{"value": fmt.Sprint(v), "in": lib.Ints(in)},
 			Obs:    map[string]interface{}{"class": cls, "value": fmt.Sprint(got), "consumed": bc.n},
 			Oracle: oracle,
-			Coq:    fmt.Sprintf("($ID%%N, %d, %s, %s, (%d, %d, %d))", v, lib.CoqBytes(enc), lib.CoqBytes(in), cls, got, bc.n)})
+			Coq:    fmt.Sprintf("mk_uv $ID%%N 0x%x %s %s %d 0x%x %d", v, lib.CoqBytes(enc), lib.CoqBytes(in), cls, got, bc.n)})
 	}
 	for _, v := range vals {
 		buf := make([]byte, binary.MaxVarintLen64)
@@ -1260,7 +1326,7 @@ func c13Uvarint(c *Ctx) error {
 		}
 		c.Out.Emit(&lib.Case{Group: "npo2", Class: "npo2", Nontrivial: v > 32768,
 			Input: map[string]interface{}{"v": v}, Obs: map[string]interface{}{"npo2": got}, Oracle: oracle,
-			Coq: fmt.Sprintf("($ID%%N, %d, %d)", v, got)})
+			Coq: fmt.Sprintf("mk_npo2 $ID%%N 0x%x 0x%x", v, got)})
 	}
 	return nil
 }
